@@ -166,7 +166,9 @@ def run_crash(args):
     kinds, kw = scenario(scen)
     box = make_box(kinds, kw, seed)
     try:
-        how = {'kill': dict(crash_at=k), 'intr': dict(intr_at=k), 'intr_after': dict(intr_after=k)}[mode]
+        how = {'kill': dict(crash_at=k), 'intr': dict(intr_at=k), 'intr_after': dict(intr_after=k),
+               'term': dict(intr_at=k, intr_sig='SIGTERM'), 'term_after': dict(intr_after=k, intr_sig='SIGTERM'),
+               'hup': dict(intr_at=k, intr_sig='SIGHUP')}[mode]
         res = runner.run('trash-put', put_args(box), os.path.join(box.root, 'cwd'), box.env(),
                          shim_cfg=box.shim(**how), now=(2020, 1, 1, 0, 0, 0))
         creators = {}
@@ -179,7 +181,7 @@ def run_crash(args):
             oplevel.classify_creator(box, dict(e, p=cur), creators)
         st = box.project(creators)
         last = [e for e in res['trace'] if 'seq' in e][-1:] or [{}]
-        killed = res['exit'] in (137, 130)
+        killed = res['exit'] in (137, 130, 143, 129, -15, -1, -2)
         return {'scen': scen, 'k': k, 'mode': mode, 'killed': killed, 'exit': res['exit'],
                 'obs': {'state': st, 'done': {} if killed else {q: True for q in box.sources},
                         'res': {} if killed else {q: 'ok' if res['exit'] == 0 else 'fail' for q in box.sources}},
@@ -301,6 +303,10 @@ for _k in ('empty-all', 'rm-all', 'restore-all'):
     PURGE_SCENARIOS[_k + '@dirlink'] = PURGE_SCENARIOS[_k]
 
 
+# names under files/ and info/: ordinary ones, and one that consists of dots only
+SLOTNAME = {'e4': '...', 'o1': '....'}
+
+
 class PurgeBox(object):
     """home trash with four entries: e1 file, e2 deep tree (restores across volumes), e3 link, e4 file on the other
     volume; two orphans (a file and a tree)"""
@@ -326,7 +332,7 @@ class PurgeBox(object):
         self.keep = None
         f = os.path.join(self.tdir, 'files')
         for e in ('e1', 'e2', 'e3', 'e4', 'o1', 'o2'):
-            p = os.path.join(f, 'slot-' + e)
+            p = os.path.join(f, SLOTNAME.get(e, 'slot-' + e))
             if e in ('e1', 'e4', 'o1'):
                 with open(p, 'w') as fh:
                     fh.write('payload of %s' % e + 'x' * 3000)
@@ -349,7 +355,7 @@ class PurgeBox(object):
                 os.symlink('../x', os.path.join(p, 'a', 'l'))
             self.dig[e] = _world.digest_of_sub(_world.snapshot_sub(os.fsencode(p)))
             if e.startswith('e'):
-                with open(os.path.join(self.tdir, 'info', 'slot-' + e + '.trashinfo'), 'wb') as fh:
+                with open(os.path.join(self.tdir, 'info', SLOTNAME.get(e, 'slot-' + e) + '.trashinfo'), 'wb') as fh:
                     fh.write(_world.format_info(os.fsencode(self.dest[e]), self.dates[e]))
             if e in self.occupied:
                 d = self.dest[e]
@@ -388,13 +394,13 @@ class PurgeBox(object):
     def project(self):
         info, pay, dest = {}, {}, {}
         for e in ('e1', 'e2', 'e3', 'e4', 'o1', 'o2'):
-            p = os.fsencode(os.path.join(self.tdir, 'files', 'slot-' + e))
+            p = os.fsencode(os.path.join(self.tdir, 'files', SLOTNAME.get(e, 'slot-' + e)))
             if os.path.lexists(p):
                 pay[e] = 'whole' if _world.digest_of_sub(_world.snapshot_sub(p)) == self.dig[e] else 'partial'
             else:
                 pay[e] = 'gone'
             if e.startswith('e'):
-                info[e] = 'present' if os.path.lexists(os.path.join(self.tdir, 'info', 'slot-' + e + '.trashinfo')) else 'gone'
+                info[e] = 'present' if os.path.lexists(os.path.join(self.tdir, 'info', SLOTNAME.get(e, 'slot-' + e) + '.trashinfo')) else 'gone'
                 d = os.fsencode(self.dest[e])
                 if os.path.lexists(d):
                     dg = _world.digest_of_sub(_world.snapshot_sub(d))
